@@ -1,0 +1,25 @@
+//go:build verif
+
+// Contracts for package audit, checked by /verif (govc). This file is
+// comment-only: it adds no code under any build tag.
+
+package audit
+
+// The event an entry contributes to the audit trail: everything but ID and Time.
+//@ fn evOf(e *Entry) Event { auditEv(e.Principal.Hostname, e.Principal.IP, e.Principal.User, seq(e.Principal.Tags), str(e.Action), e.Secret, e.SecretVersion, e.Authorized) }
+
+//@ func (*Writer).Sync(l) (err)
+//@   requires l != nil
+//@   ensures [C06 sync.synced] (err == nil && implements(l.w, "syncer")) ==> auditSynced == auditLog
+//@   ensures [C06 sync.sinkerr] err != nil ==> sinkErr(err)
+//@   ensures [C06 sync.log-untouched] auditLog == old(auditLog)
+
+//@ func (*Writer).WriteEntries(l, entries) (err)
+//@   requires l != nil && l.enc != nil && (forall i int :: (0 <= i && i < len(entries)) ==> entries[i] != nil)
+//@   ensures [C06 we.appended-one] (len(entries) == 1 && err == nil) ==> auditLog == snoc(old(auditLog), evOf(entries[0]))
+//@   ensures [C06 we.synced] (err == nil && implements(l.w, "syncer")) ==> auditSynced == auditLog
+//@   ensures [C06 we.fail-one] (len(entries) == 1 && err != nil) ==> (auditLog == old(auditLog) || auditLog == snoc(old(auditLog), evOf(entries[0])))
+//@   ensures [C06 we.sinkerr] err != nil ==> sinkErr(err)
+//@   loop 0
+//@     invariant [bound] 0 <= iter && iter <= len(entries)
+//@     invariant [trail] (iter == 0 ==> auditLog == old(auditLog)) && (iter == 1 ==> auditLog == snoc(old(auditLog), evOf(entries[0])))
